@@ -5,6 +5,36 @@ HERE = os.path.dirname(os.path.dirname(os.path.abspath(__file__)))
 
 # id -> (monitor, level, technique, level text, level note, design ref)
 CHECKS = {
+ "C03": ("circmon", "exploration",
+         "runtime monitor: full compiled circuits solved with chosen public inputs and forged bit-decomposition hints vs. independent on-chain packing + Keccak",
+         "Full insertion/deletion circuits (one- and two-block hash inputs) are solved for valid batches with the keccak of the canonical packing (must accept) and with hashes of single-field perturbations, other valid batches, alternative encodings, and - with the decomposition hint replaced - of the forged bytes v+k*r for every admissible k (incl. v=0), other values and non-boolean digits (must all reject); the rejecting constraint is recorded. Public wires checked to be exactly [1, InputHash]. Held on the executions produced.",
+         "Trusts x/crypto Keccak, the packing written from the property statement, gnark's solver, the structure audit.",
+         "DESIGN.md §3.1, §C03"),
+ "C07": ("provmon", "exploration",
+         "runtime monitor: real Groth16 setup/prove/verify with reference validity + hash oracle, re-randomised proofs, cross-system checks",
+         "Real proving systems of both modes (incl. a same-shape pair and an independent second setup) prove valid batches; each proof and 60-200 re-randomised derivatives are verified for the own hash (+r, +2r accepted) and against neighbouring/perturbed/foreign/random public inputs, the other mode's system and the independent setup (rejected); every invalid batch class, wrong hashes and 15 wrong-dimension mutations must give error and nil proof. Held on the calls made.",
+         "Trusts gnark's Groth16 and the monitor's reference specs; dimensions beyond those set up are not covered.",
+         "DESIGN.md §C07"),
+ "C08": ("provmon", "exploration",
+         "runtime monitor: differential test of the hash helpers against independent packing + Keccak, circuit solve, CLI sweep of gen-test-params",
+         "ComputeInputHashInsertion/Deletion on tens of thousands of parameter sets of every magnitude class (k leading zero bytes for all k) compared with the on-chain packing; a sequential stream exposes state carried between calls; short-root valid batches are solved in the full circuit with the helper's hash; gen-test-params output for a (mode, depth, batch) sweep is parsed independently and checked for hash, validity and provability. Held on the sets produced.",
+         "Trusts x/crypto Keccak and the packing written from the property statement; hash equality modulo r.",
+         "DESIGN.md §C08"),
+ "C10": ("provmon", "exploration",
+         "runtime monitor: codec round trip of real, re-randomised and synthetic proofs against an independent EVM-order codec",
+         "Thousands of valid proofs (re-randomised from real ones; the monitor counts those with short coordinates and requires >=50) plus synthetic tiny-coordinate proofs are marshalled, read by an independent reader (EVM order vs. reflection on the gnark struct), unmarshalled (points equal, still verifying) and decoded from independently written minimal/padded hex; sequential stream first. Held on the proofs produced.",
+         "Trusts gnark-crypto arithmetic, EIP-197 ordering as written in the property.",
+         "DESIGN.md §C10"),
+ "C11": ("provmon", "exploration",
+         "runtime monitor: write/read both formats + CLI conversion, canonical digests and cross prove/verify against the original in-memory system",
+         "Real insertion/deletion systems and hundreds of small independent systems are written compressed and raw, converted by the CLI, read back by both readers; header, digests of pk/vk/cs, byte counts and cross prove/verify between original and reloaded system are checked. Held on the systems produced.",
+         "Digest = SHA-256 of gnark's own canonical serialisation of the in-memory parts.",
+         "DESIGN.md §C11"),
+ "C15": ("provmon", "fault_enumeration",
+         "fault enumeration at run time: every cut offset of small files, boundaries and samples of real files, CLI on truncated files",
+         "Every strict prefix (all byte offsets) of several small proving-system files in both formats, and boundary/PRNG offsets of real 60-90 MB files, are fed to UnsafeReadFrom / ReadSystemFromFile under recover() and a watchdog: outcome must be an error. CLI commands on six truncated files must exit non-zero and start must not stay up. Exhaustive per small file; sampled for real files.",
+         "Assumes truncation = strict prefix; small files share the layout of real ones.",
+         "DESIGN.md §C15"),
  "C01": ("circmon", "exploration",
          "runtime monitor: real compiled R1CS solved under honest and dishonest hint tables vs. reference Merkle spec; tiny-field exhaustive sub-runs",
          "Executes the real compiled constraint systems (gadget harness at many depths/batches and the full circuit) with gnark's solver on PRNG batches aimed at every class of the quantifier, under the honest hint table and dishonest ones (non-boolean/wrong index digits); every verdict is compared with an independent statement of the property, every accept is re-derived by an independent constraint evaluator, and over the 47-element field inputs and all prover-chosen hint outputs are enumerated. Held on the executions produced; exhaustive only at the tiny scope.",
